@@ -296,7 +296,11 @@ def is_int_type(ty):
 
 
 def is_ref_type(ty):
-    return ty.rstrip().endswith("&")
+    """reference, pointer and array parameters alias the argument object"""
+    t = ty.rstrip()
+    if t.endswith("const"):
+        t = t[:-5].rstrip()
+    return t.endswith("&") or t.endswith("*") or t.endswith("]") or t.endswith("__restrict")
 
 
 def is_scalar_type(ty):
@@ -309,6 +313,10 @@ class SymEx:
     ("P0", "P1", ..., "this"); see module doc."""
 
     MAX_STEPS = 3_000_000
+
+    # storage members of the small dense algebra classes are transparent: point.v[0] is addressed as
+    # point[0], independent of how the (single) data member of Tiny::Vector/Matrix/Tensor3 is called
+    TRANSPARENT = re.compile(r"^FEAT::Tiny::(Vector|Matrix|Tensor3)<.*>::[A-Za-z_]\w*$")
 
     def __init__(self, facts_list, opaque=None, no_inline=None):
         self.facts_list = facts_list
@@ -427,12 +435,14 @@ class SymEx:
         return self.by_decl.get((id(fn.facts), d))
 
     # --- entry ------------------------------------------------------------------------------------
-    def run(self, fn, args=None, this="this"):
-        """evaluate fn with input roots; args: list of Loc / values per parameter (default: P<i> roots).
+    def run(self, fn, args=None, this="this", prefix="P"):
+        """evaluate fn with input roots; args: list of Loc / values per parameter (default: roots
+        <prefix>0, <prefix>1, ...).  The state persists, so several member functions of one object can be
+        run in sequence (e.g. prepare, then map_point) with different root prefixes.
         returns the returned value (or None)"""
         env = {}
         if args is None:
-            args = [Loc("P%d" % i) for i in range(len(fn.params))]
+            args = [Loc("%s%d" % (prefix, i)) for i in range(len(fn.params))]
         for p, a in zip(fn.params, args):
             if isinstance(a, Loc):
                 env[p["d"]] = a
@@ -444,6 +454,8 @@ class SymEx:
             env["this"] = this if isinstance(this, Loc) else Loc(this)
         self.inlined.add(fn.full)
         try:
+            if fn.d.get("ctor") and "this" in env:
+                self.run_inits(fn, env, env["this"])
             self.exec(fn.body, env, fn)
         except _Return as r:
             return r.v
@@ -575,6 +587,8 @@ class SymEx:
             base = self.eval(b, env, fn) if b is not None else env.get("this")
             if not isinstance(base, Loc):
                 raise NotClosedForm("member %s of a non-object (line %s)" % (n.get("n"), n.get("l")))
+            if n.get("field") and self.TRANSPARENT.match(n.get("qn", "")):
+                return base
             return base.child(n["n"])
         if k == "Index":
             base = self.eval(n["b"], env, fn)
@@ -831,24 +845,35 @@ class SymEx:
         new_env = {"this": loc}
         self.bind_args(target, args_n, env, fn, new_env)
         self.inlined.add(target.full)
-        for ini in target.d.get("inits") or []:
-            m = ini.get("member")
-            e = ini.get("init")
-            if m is None or e is None:
-                raise NotClosedForm("base/delegating initialiser in %s" % target.full)
-            if e.get("k") in ("Construct", "TempObj"):
-                self.construct(e, new_env, target, loc.child(m))
-                continue
-            x = self.eval(e, new_env, target)
-            if isinstance(x, Loc) and x.key() not in self.store:
-                self.copy_agg(loc.child(m), x)
-            else:
-                self.write(loc.child(m), self.rv(x))
+        self.run_inits(target, new_env, loc)
         try:
             self.exec(target.body, new_env, target)
         except _Return:
             pass
         return loc
+
+    def run_inits(self, target, new_env, loc):
+        """constructor initialiser list (base subobjects share the location of the object)"""
+        for ini in target.d.get("inits") or []:
+            m = ini.get("member")
+            e = ini.get("init")
+            if e is None:
+                continue
+            if m is None:
+                if ini.get("base") is not None and e.get("k") in ("Construct", "TempObj"):
+                    self.construct(e, new_env, target, loc)
+                    continue
+                raise NotClosedForm("delegating initialiser in %s" % target.full)
+            if e.get("k") in ("Construct", "TempObj"):
+                self.construct(e, new_env, target, loc.child(m))
+                continue
+            x = self.eval(e, new_env, target)
+            if isinstance(x, list):
+                self._store_list(loc.child(m), x)
+            elif isinstance(x, Loc):
+                self.copy_agg(loc.child(m), x)
+            else:
+                self.write(loc.child(m), x)
 
 
 # -------------------------------------------------------------------------------------------------
